@@ -66,12 +66,17 @@ type c09Result struct {
 }
 
 type c09Counting struct {
-	r     *bytes.Reader
-	n     int64
-	chunk int
+	r       *bytes.Reader
+	n       int64
+	chunk   int
+	stutter bool
+	calls   int
 }
 
 func (c *c09Counting) Read(p []byte) (int, error) {
+	if c.calls++; c.stutter && c.calls%2 == 1 && len(p) > 0 {
+		return 0, nil
+	}
 	if c.chunk > 0 && len(p) > c.chunk {
 		p = p[:c.chunk]
 	}
@@ -90,7 +95,7 @@ type c09BinEntry struct {
 // c09Reader: chunk >= 0 selects the counting reader (a type the library cannot
 // know); negative values hand the library the concrete standard readers, whose
 // types a decoder might special-case: -1 *bytes.Reader, -2 *bytes.Buffer,
-// -3 *bufio.Reader, -4 *strings.Reader. For those, "delivered" is what is
+// -3 *bufio.Reader, -4 *strings.Reader; -5 is a counting reader that answers every other call with (0, nil). For those, "delivered" is what is
 // missing from the reader afterwards.
 func c09Reader(f func(r io.Reader) (int64, error)) func(b []byte, chunk int) c09Result {
 	return func(b []byte, chunk int) c09Result {
@@ -112,6 +117,12 @@ func c09Reader(f func(r io.Reader) (int64, error)) func(b []byte, chunk int) c09
 			r := strings.NewReader(string(b))
 			n, err := f(r)
 			return c09Result{used: n, delivered: int64(len(b) - r.Len()), err: err}
+		case -5:
+			// a reader that now and then has nothing to hand over yet and says so with (0, nil),
+			// as the io.Reader contract allows (a pipe after an empty write does it)
+			r := &c09Counting{r: bytes.NewReader(b), chunk: 2, stutter: true}
+			n, err := f(r)
+			return c09Result{used: n, delivered: r.n, err: err}
 		}
 		r := &c09Counting{r: bytes.NewReader(b), chunk: chunk}
 		n, err := f(r)
@@ -872,7 +883,7 @@ func init() {
 			ncorp = 300
 		}
 		corpus := c09Corpus(c.Seed, ncorp)
-		chunks := []int{0, 1, 3, -1, -2, -3, -4}
+		chunks := []int{0, 1, 3, -1, -2, -3, -4, -5}
 
 		// feed sends b to one entry point unless its claims exceed the cap
 		feed := func(e *c09BinEntry, b []byte, class string, chunk int, claim uint64, cap uint64) {
